@@ -254,7 +254,12 @@ def check_obs(case, obs):
 
 def check(case):
     obs = tw.execute(case['spec'])
-    return check_obs(case, obs)
+    res = check_obs(case, obs)
+    if any(t.get('own_stdout') for t in case['spec']['tests']):
+        # a test that swaps sys.stdout takes the runner's own report with it (the formatter prints to whatever sys.stdout
+        # is): attribution is the test's doing there; what the property still demands is that the streams are restored
+        res = [r for r in res if 'streams-replaced' in r[0] or 'aborts-run' in r[0]]
+    return res
 
 
 # --------------------------------------------------------------------------
@@ -282,6 +287,17 @@ def gen_single_writes():
                         continue
                     yield {'spec': {'tests': [dict(NOISE_BEFORE), t, dict(NOISE_AFTER)],
                                     'args': ['-vv', '--buffer']}}
+
+
+def gen_own_stdout():
+    """a test that replaces sys.stdout by a stream of its own (saving the one it found) and puts the saved one back in a
+    cleanup, i.e. after its result events: between tests the streams must be the originals all the same"""
+    for k in ('fail', 'error', 'pass', 'err_td', 'sub1', 'skip_body', 'usuccess'):
+        for args in (['--buffer'], ['-vv', '--buffer'], []):
+            t = {'k': k, 'own_stdout': True, 'out': [['body', 'err', 'nl']]}
+            yield {'spec': {'tests': [dict(NOISE_BEFORE), t, dict(NOISE_AFTER)], 'args': args}}
+            yield {'spec': {'tests': [dict(NOISE_BEFORE), t], 'args': args}}
+            yield {'spec': {'tests': [t, {'k': 'fail', 'out': [['body', 'out', 'nl']]}], 'args': args}}
 
 
 def gen_nobuffer():
@@ -367,6 +383,8 @@ def run(budget_s, seed, tier):
         ('every kind alone, --buffer', True, gen_minimal()),
         ('one write: %d kinds x 4 phases x 2 streams x %d styles, --buffer'
          % (len(KINDS13), len(STYLES)), True, gen_single_writes()),
+        ('a test that replaces sys.stdout itself and restores what it found in a cleanup: 7 kinds x 3 option sets x 3 positions',
+         True, gen_own_stdout()),
         ('KeyboardInterrupt at 3 positions x buffer x -v x layer', True, gen_interrupt()),
         ('no --buffer: every kind x -v x layer, streams probed inside every phase', True,
          gen_nobuffer()),
